@@ -103,7 +103,7 @@ func bagModel(capacity int) porcupine.Model {
 }
 
 func runPorcupine(t *testing.T, r *rep.Reporter, env instrEnv, ys yieldStats) {
-	n := r.N(60, 6000)
+	n := r.N(200, 6000)
 	for i := 0; i < n; i++ {
 		idx := basePorc + i
 		r.Run(idx, fmt.Sprintf("porcupine-%d", i), func(c *rep.Case) {
